@@ -129,7 +129,10 @@ class DSDLDefinition(ReadableDSDLFile):
         # INFERENCE 3: If the target is relative then we can try to find a valid root by looking for the file in the
         # root directories. This is a stronger inference than the previous one because it requires the file to exist
         # but we do it second because it reads the filesystem.
-        if not dsdl_path.is_absolute():
+        # A target that exists in the working directory and has a root namespace name on its path is left to INFERENCE 4.
+        root_parts = [x.parts[-1] for x in valid_dsdl_roots if len(x.parts) == 1]
+        parts = list(dsdl_path.parent.parts)
+        if not dsdl_path.is_absolute() and not (found_as_given and any(x in root_parts for x in parts)):
             for path_to_root in valid_dsdl_roots:
                 path_to_root_parent = path_to_root
                 while path_to_root_parent != path_to_root_parent.parent:
@@ -149,8 +152,6 @@ class DSDLDefinition(ReadableDSDLFile):
 
         # INFERENCE 4: A weaker, but valid inference is when the target path is a child of a known root folder name.
         # This is only allowed if dsdl roots are top-level namespace names and not paths.
-        root_parts = [x.parts[-1] for x in valid_dsdl_roots if len(x.parts) == 1]
-        parts = list(dsdl_path.parent.parts)
         for i, part in list(enumerate(parts)):
             if part in root_parts:
                 return Path().joinpath(*parts[: i + 1])
